@@ -34,6 +34,8 @@ def strings_of(case):
             if 's' in a:
                 if a['s'] not in found:
                     found.append(a['s'])
+            if 'cw' in a:
+                walk(a['cw'])
             for k in ('t', 'l', 'c'):
                 if k in a:
                     for x in a[k]:
@@ -72,6 +74,8 @@ def tok(a, strs):
         return f"o{STR_BASE + strs.index(a['s'])}"
     if 'r' in a:
         return f"o{RATE_IDS[a['r']]}"
+    if 'cw' in a:
+        return ' '.join(['(c'] + [tok(x, strs) for x in items(a)] + [')'])
     for k in ('t', 'l', 'c'):
         if k in a:
             return ' '.join([f'({k}'] + [tok(x, strs) for x in a[k]] + [')'])
@@ -79,10 +83,15 @@ def tok(a, strs):
 
 
 def is_list(a):
-    return isinstance(a, dict) and ('l' in a or 'c' in a)
+    return isinstance(a, dict) and ('l' in a or 'c' in a or 'cw' in a)
 
 
 def items(a):
+    if 'cw' in a:
+        # ChannelList(x) built directly from ONE value: a tuple, string or scalar is a single channel
+        # (never unpacked); an iterable list gives its items
+        x = a['cw']
+        return items(x) if is_list(x) else [x]
     return a['l'] if 'l' in a else a['c']
 
 
@@ -147,6 +156,8 @@ def unit_free(a):
     if isinstance(a, dict):
         if 'u' in a:
             return False
+        if 'cw' in a:
+            return unit_free(a['cw'])
         for k in ('t', 'l', 'c'):
             if k in a:
                 return all(unit_free(x) for x in a[k])
@@ -264,6 +275,8 @@ class Ctx:
 
     def _fresh(self, a, path):
         ugn = _state['ugn']
+        if 'cw' in a:
+            return ugn.ChannelList(self.value(a['cw'], path + '.w'))
         if 't' in a:
             return tuple(self.value(x, f'{path}.{i}') for i, x in enumerate(a['t']))
         if 'l' in a:
@@ -681,6 +694,9 @@ def _uval(a, atoms):
         return atoms.setdefault(a['u'], Atom(a['u']))
     if 's' in a:
         return a['s']
+    if 'cw' in a:
+        _init()
+        return _state['ugn'].ChannelList(_uval(a['cw'], atoms))
     if 't' in a:
         return tuple(_uval(x, atoms) for x in a['t'])
     if 'l' in a:
